@@ -2,7 +2,7 @@
 (* Role table of the wire decoders (see Wire.tla): which encoding classes must be refused at  *)
 (* which leaf of a wire form - the type invariants of C15.                                     *)
 EXTENDS Integers, Sequences, FiniteSets
-GroupInvalid == {"off_curve", "off_subgroup", "uncompressed_flag", "x_not_reduced"}
+GroupInvalid == {"off_curve", "off_subgroup", "uncompressed_flag", "x_not_reduced", "flag_combination"}
 RawBytes == {"ChannelId", "CustomerRandomness", "MerchantRandomness"}
 Forbidden(s, f, inPair, class) ==
   \/ class \in GroupInvalid
